@@ -467,7 +467,9 @@ package pkg
 //@   modifies $allocated
 //@   trusted_ensures r == tr_join(v, operator) && (err == nil) == ok_join(v, operator)
 //@   invariant@1[C18] acc: len(ops) == len(arr) && (forall j int :: 0 <= j && j < i ==> ops[j] == tr_operand(arr[j], false, negOne(operator, len(arr))) && ok_operand(arr[j], false, negOne(operator, len(arr))))
-//@   checks[C18] arity: !isArr(v) || len(as(v, "[]any")) == 0 ==> err != nil
+// "x and y are two or more condition objects or constants" (docs): a single operand is wrong arity - except under "not", where it is
+// the logical negation. From the documentation, not from the code.
+//@   checks[C18] arity: !isArr(v) || len(as(v, "[]any")) == 0 || (len(as(v, "[]any")) == 1 && operator != " != ") ==> err != nil
 //@   checks[C18] operandfails: isArr(v) && (exists j int :: 0 <= j && j < len(as(v, "[]any")) && !ok_operand(as(v, "[]any")[j], false, negOne(operator, len(as(v, "[]any"))))) ==> err != nil
 //@   checks[C18] format: isArr(v) && err == nil ==> r == str_join(opsOf(as(v, "[]any"), negOne(operator, len(as(v, "[]any")))), operator)
 //@ func joinSet(v, operator) (r, err)
